@@ -471,6 +471,18 @@ def _record(fn, src):
 _LEAF = {}
 
 
+def _names_used(fn):
+    """global names a function (and the functions / lambdas nested in it) refers to"""
+    out = set()
+    stack = [fn.__code__]
+    while stack:
+        c = stack.pop()
+        out |= set(c.co_names)
+        stack.extend(k for k in c.co_consts if isinstance(k, types.CodeType))
+    return out
+
+
+
 def _leaf_kernels(fn):
     """names (in fn's globals) of compiled helper kernels that are safe to call inside a merged `if`: straight-line scalar code
     (assignments, ifs, returns; no loops, no computed slices, no raise, calls only to builtins / other leaf kernels).  Their
@@ -605,6 +617,13 @@ def transform(fn, overrides=None, _memo=None, merge=True, also=(), safe_calls=()
             g[k] = transform(v, overrides, _memo, merge, (), safe_calls)
         elif k in also and isinstance(v, types.FunctionType):
             g[k] = transform(v, overrides, _memo, merge, also, safe_calls)
+        elif isinstance(v, types.FunctionType) and v.__module__ == fn.__module__ and k in _names_used(fn) and k not in overrides:
+            # a plain Python helper of the same module that this function calls (e.g. extracted by a refactoring): it must see the
+            # same shims, so it is re-compiled from the working tree as well; if that is not possible it stays native
+            try:
+                g[k] = transform(v, overrides, _memo, merge, also, safe_calls)
+            except Exception:
+                pass
     g.update(overrides)
     if not cls_name:
         g[fd.name] = newf
